@@ -1187,6 +1187,25 @@ class PureInterp:
 
     def _isinstance(self, v, t):
         names = [t] if not isinstance(t, (tuple, list)) else list(t)
+        if isinstance(v, Obj):
+            from .paths import Hierarchy
+            hier = Hierarchy(self.index)
+            cls = v.__dict__["_attrs"].get("__class__")
+            kind = v._name[4:] if v._name.startswith("exc:") else None
+            cands = []
+            if isinstance(cls, ClassInfo):
+                cands.append(f"{cls.module.name}.{cls.name}")
+            if kind:
+                cands += [f"builtins.{kind}", f"asyncio.{kind}", f"click.{kind}", f"click.exceptions.{kind}"] + [f"{ci.module.name}.{ci.name}" for ci in self.index.classes.values() if ci.name == kind]
+            for x in names:
+                want = f"{x.module.name}.{x.name}" if isinstance(x, ClassInfo) else x.name if isinstance(x, FuncRef) else str(x)
+                for c in cands:
+                    try:
+                        if hier.is_sub(c, want) or c == want:
+                            return True
+                    except Exception:
+                        continue
+            return False
         for x in names:
             nm = x.name if isinstance(x, FuncRef) else getattr(x, "name", str(x))
             if nm.endswith("str") and isinstance(v, str):
